@@ -144,6 +144,12 @@ pub fn real_handshake(
 }
 
 impl super::WhoAreYouRef {
+    /// A who-are-you query as the handler raises it for an undecryptable packet from `node_address`
+    /// (for harnesses that play the handler towards a real service).
+    pub fn verif_new(node_address: super::NodeAddress, message_nonce: MessageNonce) -> Self {
+        Self(node_address, message_nonce)
+    }
+
     /// The nonce of the packet that made the handler ask for a WHOAREYOU.
     pub fn verif_message_nonce(&self) -> MessageNonce {
         self.1
